@@ -65,10 +65,29 @@ func (f *raceFSM) Restore(r io.Reader) error {
 
 func (f *raceFSM) NeedSnapshot(logSize int) bool { return logSize >= f.thresh }
 
+// Every address handed out by this process lies in a loopback block of its own: 127.<shard block>.<counter>.<counter>.
+// Ports released by a stopped node are otherwise recycled by the OS for the nodes of *other* clusters (other
+// shards run at the same time), and a leader that keeps calling a node that is down then talks to a stranger, whose
+// answers (hints beyond the leader's own log) it trusts: that is how the "makeslice: cap out of range" death of
+// F30 came about - cross-talk between independent clusters, not a defect of the library.
+var addrSeq atomic.Int64
+
+func loopbackHost() string {
+	// (the block is chosen by process id: shards, the corpus run and other checks' processes that happen to run at
+	// the same time all differ in it)
+	n := addrSeq.Add(1)
+	return fmt.Sprintf("127.%d.%d.%d", 16+(os.Getpid()%230), 1+(n/250)%250, 1+n%250)
+}
+
 func freeAddrF(t fataler) string {
-	l, err := net.Listen("tcp", "127.0.0.1:0")
+	host := loopbackHost()
+	l, err := net.Listen("tcp", host+":0")
 	if err != nil {
-		t.Fatalf("harness error: listen: %v", err)
+		// (a platform without the whole 127/8 block on the loopback interface)
+		l, err = net.Listen("tcp", "127.0.0.1:0")
+		if err != nil {
+			t.Fatalf("harness error: listen: %v", err)
+		}
 	}
 	defer l.Close()
 	return l.Addr().String()
